@@ -229,14 +229,24 @@ def job_single_sampling(ss, N):
     import tensorflow as tf
     from tf_pwa.generator.generator import single_sampling2
 
-    for with_bound in (False, True):
-        def run():
+    for with_bound, with_imp in ((False, False), (True, False), (False, True), (True, True)):
+        def run(with_bound=with_bound, with_imp=with_imp):
             symtf.STATE.symbolic_random = True
             symtf.reset_state()
             ws = [S.real("w%d" % i) for i in range(N)]
             c = S.ctx()
             for w in ws:
                 c.fact(T.gt(w.t, T.ZERO))
+            imp = None
+            if with_imp:
+                fs = [S.real("f%d" % i) for i in range(N)]
+                for f in fs:
+                    c.fact(T.gt(f.t, T.ZERO))
+                imp = lambda d: tensor_of(fs)
+                # the weight that decides acceptance is amp / importance
+                ws_eff = [w / f for w, f in zip(ws, fs)]
+            else:
+                ws_eff = ws
             mw = None
             if with_bound:
                 b = S.real("bound0")
@@ -244,14 +254,14 @@ def job_single_sampling(ss, N):
                 mw = tensor_of(b)
             phsp = lambda n: {"idx": tf.convert_to_tensor(np.arange(n))}
             amp = lambda d: tensor_of(ws)
-            data, new_mw = single_sampling2(phsp, amp, N, mw)
-            return data, new_mw, ws
+            data, new_mw = single_sampling2(phsp, amp, N, mw, imp)
+            return data, new_mw, ws_eff
 
         ex = fork.Explorer(max_paths=100, max_depth=30, timeout_s=20, total_s=900)
         npaths = 0
         for path in ex.run(run):
             npaths += 1
-            tag = "N=%d,bound=%s,path=%d" % (N, with_bound, npaths)
+            tag = "N=%d,bound=%s,imp=%s,path=%d" % (N, with_bound, with_imp, npaths)
             if path.error is not None:
                 ss._rec(kind="obligation", name="ar.path_error[%s]" % tag, key="ar.path", status="error", error="%s: %s" % (type(path.error).__name__, path.error))
                 continue
@@ -259,7 +269,7 @@ def job_single_sampling(ss, N):
             F = list(path.ctx.facts) + list(path.pc)
             mwt = term_of(new_mw.arr.reshape(-1)[0]) if hasattr(new_mw, "arr") else new_mw.t
             kept = [int(i) for i in np.asarray(data["idx"].arr).reshape(-1)]
-            pay = _pay("single_sampling", N=N, with_bound=with_bound, kept=kept)
+            pay = _pay("single_sampling", N=N, with_bound=with_bound, with_imp=with_imp, kept=kept)
             for i in kept:
                 ss.prove("ar.accepted_below_bound[%s,%d]" % (tag, i), F, T.gt(ws[i].t, mwt), key="ar.accepted_below_bound", payload=pay, split=False, timeout=60,
                          describe="an accepted event has weight <= the bound it was accepted with")
@@ -267,7 +277,7 @@ def job_single_sampling(ss, N):
                 ss.prove("ar.bound_dominates[%s,%d]" % (tag, i), F, T.gt(ws[i].t, mwt), key="ar.bound_dominates", payload=pay, split=False, timeout=60, describe="returned bound >= every weight seen")
             if with_bound:
                 ss.prove("ar.bound_monotone[%s]" % tag, F, T.lt(mwt, T.var("bound0")), key="ar.bound_monotone", payload=pay, split=False, timeout=60, describe="the bound never decreases")
-        ss.note(name="ar.paths[N=%d,bound=%s]" % (N, with_bound), states=npaths, transitions=ex.stats["forks"], stats=ex.stats)
+        ss.note(name="ar.paths[N=%d,bound=%s,imp=%s]" % (N, with_bound, with_imp), states=npaths, transitions=ex.stats["forks"], stats=ex.stats)
 
 
 def job_multi_sampling(ss):
